@@ -178,7 +178,10 @@ ASSUMPTIONS = [
     "fortran_cleaner.dir_check (sentinel recognition) is opaque here; its effect is covered by the bounded native run",
     "the held-back `&`/blank buffer (verify_continue) is concrete-length in the flush case (unrolled)",
 ]
-NOT_COVERED = ["fixed-form Fortran (the code has no support)", "the composition over whole files and conditional selection: bounded (native/C17.py)"]
+NOT_COVERED = ["fixed-form Fortran (the code has no support)", "the composition over whole files and conditional selection: bounded (native/C17.py)",
+               "the reference step table treats a backslash inside a character literal as an escape, as the code does (gfortran -fbackslash "
+               "behaviour); standard Fortran has no escapes - recorded finding fortran:backslash-in-a-character-literal-taken-for-an-escape, "
+               "outside the property's listed grammar"]
 EXPLANATION = ("Per-step transition-table conformance of fortran_cleaner.process for every character and every stack shape; whole-file "
                "classification compared with a reference on all texts of <= 6/8 characters (bounded).")
 
